@@ -172,7 +172,9 @@ pub fn gen_c02(rng: &mut Rng, n: usize, out: &mut Vec<String>) {
             const WORDS: &[&str] = &["Dieses", "Programm", "berechnet", "eine", "Größe", "des", "größten", "Feldes", "für", "naïve", "Übung",
                 "über", "é", "€uro", "señor", "x", "ab", "proc", "zähle", "Straße", "日本", "😀", "ok"];
             let pad = "a".repeat(rng.below(5));
-            let line = (0..rng.range(5, 14)).map(|_| *rng.pick(WORDS)).collect::<Vec<_>>().join(" ");
+            // short lines, and long ones (messages that repeat the skipped text get long: 100, 200, 500 bytes and more)
+            let nwords = if rng.chance(1, 2) { rng.range(5, 14) } else { rng.range(15, 120) };
+            let line = (0..nwords).map(|_| *rng.pick(WORDS)).collect::<Vec<_>>().join(" ");
             let t = format!("{}{}\nproc main() {{\n  {}\n}}\n", pad, line, if rng.chance(1, 2) { "x := 1;" } else { "" });
             out.push(format!("NEW {}", hex_str(&t)));
             out.push(format!("PUB {}", hex_str(&t)));
